@@ -12,6 +12,30 @@ def run(ctx):
     n = ctx.scale(220, 4000)
     depth = ctx.scale(3, 5)
     cases = ssuite.make_cases(ctx, n, depth, plain_only=True)
+    # values that spell a declared key as optional(key) - the DECLARATION's spelling used in a value: whatever
+    # the substitutor makes of it, a result must still refine S (a required key stays required)
+    from d42 import optional
+    extra = []
+    seen = set()
+    for c in cases:
+        if c.origin not in ("conform", "partial", "twins") or c.ssrc in seen:
+            continue
+        pos = [p for p in gen.positions(c.value) if type(gen.at(c.value, p)) is dict and gen.at(c.value, p)
+               and all(type(k) is str for k in gen.at(c.value, p))]
+        if not pos:
+            continue
+        seen.add(c.ssrc)
+        for p in pos[:3]:
+            d = gen.at(c.value, p)
+            k0 = sorted(d)[0]
+            for variant in ({(optional(k) if k == k0 else k): x for k, x in d.items()},
+                            {optional(k): x for k, x in d.items()},
+                            {optional(k0): d[k0]}):
+                c2 = ssuite.SCase()
+                c2.ssrc, c2.schema, c2.origin, c2.unmodelled = c.ssrc, c.schema, "optional-key", None
+                c2.value = gen.replace_at(c.value, p, variant)
+                extra.append(c2)
+    cases = cases + extra
     ok_cases = 0
     probes = 0
     dist = {}
@@ -20,6 +44,10 @@ def run(ctx):
     chain_budget = ctx.scale(150, 3000)
     for c in cases:
         ssuite.observe(c)
+        if c.origin == "optional-key":
+            # the model's values have no `optional` objects among their keys: these cases are decided by the
+            # refinement oracle on /repo alone, not by the correspondence
+            c.term, c.unmodelled = None, None
         dist["outcome:" + c.outcome] = dist.get("outcome:" + c.outcome, 0) + 1
         dist["origin:" + c.origin] = dist.get("origin:" + c.origin, 0) + 1
         if c.outcome != "ok":
